@@ -18,7 +18,7 @@ ASSUMPTIONS = ["lentil's physical constants differ from CODATA by < 1e-6 relativ
 EXHAUSTIVE = True
 PLAN = {'quick': {'gen': 4}, 'thorough': {'gen': 8, 'tests': 1, 'docs': 1}}
 REQUIRED_BUCKETS = ['wave-triple', 'flux-triple', 'spectrum.to:density', 'spectrum.to:unitless', 'spectrum.to:flux-roundtrip', 'spectrum.to:multi', 'spectrum.sample:unit', 'blackbody:converted',
-                    'planck:radiance', 'planck:exitance', 'planck:forms', 'planck:argument-types', 'planck:rayleigh-jeans', 'spectrum.to:refused-tail', 'same-numbers:mixed-units', 'wien', 'stefan-boltzmann', 'vega', 'spectrum.to:edit-in-place', 'spectrum.bin:unit', 'unit:aliases', 'spectrum:narrow-columns', 'spectrum:narrow-columns:assigned', 'spectrum:narrow-columns:resampled', 'spectrum.to:blackbody-objects', 'spectrum.to:sub-range-integral']
+                    'planck:radiance', 'planck:exitance', 'planck:forms', 'planck:argument-types', 'planck:rayleigh-jeans', 'spectrum.to:refused-tail', 'same-numbers:mixed-units', 'wien', 'stefan-boltzmann', 'vega', 'spectrum.to:edit-in-place', 'spectrum.bin:unit', 'unit:aliases', 'spectrum:narrow-columns', 'spectrum:narrow-columns:assigned', 'spectrum:narrow-columns:resampled', 'spectrum.to:blackbody-objects', 'spectrum.to:sub-range-integral', 'planck:temperature-vector-types']
 REQUIRED_ANCHORS = ['anchor:Spectrum.to', 'anchor:planck_radiance', 'anchor:planck_exitance', 'anchor:vegaflux',
                     'anchor:Photlam.to', 'anchor:Micron.to']
 REQUIRED_ORACLES = ['wave:compose', 'wave:identity', 'wave:roundtrip', 'wave=si', 'flux:compose', 'flux:identity',
@@ -533,6 +533,21 @@ def workload(ctx, lentil):
                               'Planck radiance depends on the type in which the wavelengths are handed over', {'T': T, 'type': nm_}, scale=1.0)
                 except Exception as e:
                     ctx.check(False, 'planck:forms', f'planck|argument-type|{nm_}|raises={type(e).__name__}', str(e), {'T': T, 'type': nm_})
+            # a vector of temperatures (a temperature sweep at one wavelength, or paired with a wavelength vector) in every type the
+            # numbers may be held in - values exactly representable in half precision
+            Tv = np.array([1000.0, 2048.0, 5504.0])
+            for fn_, fnm in ((R.planck_radiance, 'radiance'), (R.planck_exitance, 'exitance')):
+                for wl_arg, wnm in ((500.0, 'scalar-wavelength'), (np.array([450.0, 500.0, 700.0]), 'vector-wavelength')):
+                    ref_t = np.asarray(fn_(wl_arg, Tv, 'nm', 'wlam'), float)
+                    for tt in (np.float32, np.float16, np.int32, np.longdouble):
+                        ctx.bucket('planck:temperature-vector-types')
+                        try:
+                            got_t = np.asarray(fn_(wl_arg, Tv.astype(tt), 'nm', 'wlam'), float)
+                            ctx.close('planck:forms', got_t / ref_t, np.ones(3), 1e-10, f'planck|temperature-type|{wnm}',
+                                      'Planck radiance / exitance depends on the type in which a vector of temperatures is handed over',
+                                      {'type': np.dtype(tt).name, 'fn': fnm, 'wavelength': wnm, 'got': got_t.tolist(), 'ref': ref_t.tolist()}, scale=1.0)
+                        except Exception as e:
+                            ctx.check(False, 'planck:forms', f'planck|temperature-type|raises={type(e).__name__}', str(e), {'type': np.dtype(tt).name})
             # integer wavelengths in metres (long-wave regime)
             wm_int = np.array([1, 2, 5, 10, 40], dtype=np.int64)
             g_i = np.asarray(R.planck_radiance(wm_int, T, 'm', 'wlam'), float)
